@@ -160,6 +160,9 @@ func inList(y string) bool {
 func TestCheck(t *testing.T) {
 	r := vkit.Start("C09")
 	defer r.Finish(t)
+	if r.ReplayCold() {
+		return
+	}
 	if r.Replay != "" {
 		var c Case
 		if err := r.LoadReplay(&c); err != nil {
@@ -370,6 +373,8 @@ func TestCheck(t *testing.T) {
 			restore()
 		}
 	})
+
+	r.ColdPhase(coldFirst)
 
 	// Phase D: rapid - random valid and near-valid texts under random configuration (shrinks to a minimal text).
 	r.Phase("D: rapid texts", func() {
